@@ -759,8 +759,12 @@ class C08:
                     'named_sets_at_representatives': {str(k): v for k, v in c['tbl'].items()},
                     'replay_hint': 'scan the one-character string chr(witness) with the single pattern'})
         nascii = 0
+        nctx = 0
         if not replay:
             nascii = self.ascii_claims(rdir, out, obs)
+            nctx = self.context_stage(rng, tier, rdir, out, ready)
+        elif payload.get('kind') == 'context':
+            nctx = self.context_stage(rng, tier, rdir, out, ready, pairs=[(payload['context'], payload['pattern'])])
         # evidence
         seen = set()
         nt = 0
@@ -795,10 +799,77 @@ class C08:
             'blocks_on_which_the_implementation_is_not_constant': nonconstant,
             'scalar_values_per_class': NSCAL, 'exhaustive': True, 'scalar_value_verdicts_decided': evaluated * NSCAL,
             'named_items_observed_alone': len(alone), 'ascii_claims_checked': nascii,
+            'classes_observed_again_next_to_a_related_class_in_one_scanner': nctx,
             'operator_distribution': ops_h, 'item_kind_distribution': kinds_h, 'nesting_depth_hist': depth_h,
             'origin_distribution': origin_h, 'named_item_distribution': named_h, 'set_shape': shape, 'skipped': skipped,
             'max_blocks_in_a_class': max([c['blocks'] for c in ready] + [0])})
         return stats
+
+    # ------------------------------------------------------------------------------------------
+    CONTEXTS = {'quick': 120, 'thorough': 1500}
+
+    @staticmethod
+    def twin(text):
+        """a class related to `text` (its complement spelled the obvious way, or the same set in brackets)"""
+        m = re.fullmatch(r'\\([pP])(\{[^}]*\}|.)', text)
+        if m:
+            return '\\' + ('P' if m.group(1) == 'p' else 'p') + m.group(2)
+        m = re.fullmatch(r'\\([dswDSW])', text)
+        if m:
+            return '\\' + m.group(1).swapcase()
+        m = re.fullmatch(r'\[\[:(\^?)(\w+):\]\]', text)
+        if m:
+            return '[[:%s%s:]]' % ('' if m.group(1) else '^', m.group(2))
+        if text.startswith('[^'):
+            return '[' + text[2:]
+        if text.startswith('['):
+            return '[^' + text[1:]
+        return None
+
+    def context_stage(self, rng, tier, rdir, out, ready, pairs=None):
+        """The class registry is scanner-wide: a class must denote the same set when a related class
+        (its complement, the same items in brackets, another class of the run) was registered before
+        it in the same scanner. The set observed alone (already compared with the set algebra above)
+        is the reference."""
+        alone = {c['pattern']: c['impl'] for c in ready}
+        if pairs is None:
+            pairs = []
+            texts = sorted(alone)
+            order = texts[:]
+            rng.shuffle(order)
+            for t in order:
+                tw = self.twin(t)
+                if tw is not None:
+                    pairs.append((tw, t))
+                if not t.startswith('['):
+                    pairs.append(('[%s]' % t, t))
+                    pairs.append(('[^%s]' % t, t))
+                pairs.append((rng.choice(texts), t))
+                if len(pairs) >= self.CONTEXTS[tier]:
+                    break
+        jobs = [{'kind': 'c08_ctx', 'pairs': [list(x) for x in c]} for c in chunks(pairs, 8)]
+        res = run_harness(jobs, rdir, 'c08_ctx', timeout=3000)
+        n = 0
+        for r in res:
+            if r.get('harness_panic'):
+                raise RuntimeError('harness panic: %s' % r['harness_panic'])
+            for x in r['res']:
+                if x.get('build') != 'ok' or x.get('ranges') is None or x['p'] not in alone:
+                    continue          # the context does not parse/build: nothing observed
+                n += 1
+                got = to_idx_ranges(x['ranges'])
+                d = first_difference(got, alone[x['p']])
+                if d is not None or x.get('anomalies'):
+                    w = unidx(d) if d is not None else None
+                    out.violations.append({
+                        'property': 'C08', 'kind': 'context',
+                        'what': 'a class denotes a different set when a related class is registered before it in the same scanner '
+                                '(alone it is the set algebra of its parts)',
+                        'pattern': x['p'], 'context': x['ctx'], 'witness': w, 'witness_char': chr(w) if w is not None else None,
+                        'matches_next_to_context': bool(d is not None and any(lo <= d <= hi for lo, hi in got)),
+                        'anomalies': x.get('anomalies'),
+                        'replay_hint': 'modes [C: context#7], [L: pattern#0]; set_mode(1); scan chr(witness)'})
+        return n
 
     # ------------------------------------------------------------------------------------------
     def ascii_claims(self, rdir, out, stream_obs=None):
